@@ -1,6 +1,7 @@
 """C06 — rejected input is always reported, with the right file and line."""
 from hypothesis import strategies as st
 
+from execclient import hx
 import gen_text
 from langbatch import run_subs, unhex_diag
 from model_lang import Model
@@ -112,13 +113,20 @@ class C06:
         subs = case["subs"]
         via = case.get("via", "buf")
 
+        import os
+        from c02 import fixture_dir
+        # the context may have been used before, for an input with another name (an empty one: the state is unchanged)
+        pre = []
+        if case.get("reuse"):
+            first = os.path.join(fixture_dir(), "first_input.conf")
+            pre = [["mkfile", hx(first), hx("# first input\n\n")], ["parse_file", 1, hx(first)]] if via == "buf" else \
+                  [["parse_buf", 1, hx("# first input\n\n\n")]]
+
         def run(sublist):
-            ex = [{"flags": flags, "text": gen_text.render(s["main"]), "via": via,
+            ex = [{"flags": flags, "text": gen_text.render(s["main"]), "via": via, "pre": pre,
                    "files": {n: gen_text.render(t) for n, t in (s.get("files") or {}).items()}} for s in sublist]
             return run_subs(get_ex, schema, ex)
 
-        import os
-        from c02 import fixture_dir
         main_name = "[buf]" if via == "buf" else os.path.join(fixture_dir(), "main_input.conf")
         r, results = run(subs)
         fails, keys, cc = [], [], {}
@@ -192,7 +200,7 @@ class C06:
                     main += it
                 main.append(["w", draw(st.sampled_from(["\n", "\n", "\n\n", " ", "\n \n"]))])
                 if draw(st.integers(0, 2)) == 0:
-                    body = draw(st.sampled_from([" c", "", " two words", "#", " a\n b\n", "*"]))
+                    body = draw(st.sampled_from([" c", "", " two words", "#", " a\n b\n", "*", "\n * doc\n * style\n ", "* \n", " a*b\nc ", "**\n**", " x /* y\n"]))
                     style = draw(st.sampled_from(["hash", "slash", "block", "block"]))
                     if style != "block":
                         body = body.replace("\n", " ")
@@ -202,7 +210,7 @@ class C06:
             if draw(st.booleans()):
                 for _ in range(draw(st.integers(1, 3))):
                     p = draw(st.integers(0, len(main)))
-                    main.insert(p, ["c", draw(st.sampled_from([" x", "", " y\n"])), "block"])
+                    main.insert(p, ["c", draw(st.sampled_from([" x", "", " y\n", " *z\n*\n"])), "block"])
             subs = [{"main": main, "files": files}]
             idx = [i for i, t in enumerate(main) if t[0] in ("s", "p")]
             for i in idx:
@@ -250,7 +258,8 @@ class C06:
                     mutf2 = dict(files)
                     mutf2[name] = body[:i + 1]
                     subs.append({"main": main, "files": mutf2})
-            return {"schema": sc, "flags": flags, "via": draw(st.sampled_from(["buf", "buf", "file"])), "subs": subs}
+            return {"schema": sc, "flags": flags, "via": draw(st.sampled_from(["buf", "buf", "file"])), "subs": subs,
+                    "reuse": draw(st.integers(0, 3)) == 0}
         return case()
 
     def run(self, r):
